@@ -41,6 +41,8 @@ size_t sim_wlog(uint32_t *sizes, size_t max);
 
 /* ---- mmap mode ---- */
 void sim_mmap_fail_in(int n);	/* fault: the n-th mmap call from now fails with ENOMEM (one shot; 0 = off) */
+void sim_mmap_track(int on);	/* 1: remember real mappings made through the seam ... */
+int sim_mmap_release_leaked(void);	/* ... and unmap those still alive (after a trapped assertion); returns how many */
 void sim_mmap_exact_heap(int on);	/* 1: mmap returns an exact-size heap copy (ASan red zones on both ends) */
 
 /* ---- clock ---- */
